@@ -49,6 +49,13 @@ def run(rep, tier, seed, replay=None):
         for (c, cm), o in zip(jobs[::2], mo):
             if o.startswith("ENC ok") and len(o.split()) > 3:
                 msgs.append(("reference", bufrmsg.build(c["ed"], c["tmpl"], len(c["subsets"]), bool(cm), bytes.fromhex(o.split()[3])).hex(), False))
+        # 2 03 YYY (new reference values) only through the decoder: reference-made messages (the API encode path of 2 03 is a known finding of C09)
+        c203, _ = codecrun.gen_cases(ctx, rng, max(n // 3, 20), comp_mode=False, allow203=True)
+        c203 = [c for c in c203 if any(203000 < d < 203255 for d in c["tmpl"])]
+        mo = ctx.run_model([gen.case_line(c["ed"], 0, c["tmpl"], c["subsets"], seed=rng.randint(1, 10 ** 6), model=True) for c in c203])
+        for c, o in zip(c203, mo):
+            if o.startswith("ENC ok") and len(o.split()) > 3:
+                msgs.append(("reference203", bufrmsg.build(c["ed"], c["tmpl"], len(c["subsets"]), False, bytes.fromhex(o.split()[3])).hex(), False))
     nmodel = len(msgs)
     # corpus (exploration of the implementation only)
     corpus = []
